@@ -306,6 +306,12 @@ func VerifRotationSecondGeneration() {
 	}
 	step(2)
 	zzverif.Assert(fetches >= 2, "renewal_requested")
+	if fetches == 2 {
+		// whatever its validity window looks like, the certificate just fetched is the one being served
+		svid, err := s.SVIDSource().GetX509SVID()
+		zzverif.Assert(err == nil, "svid_served")
+		zzverif.Assert(svid.Certificates[0] == cert2, "served_svid_is_latest_successful_fetch")
+	}
 	issued := fetchTimes[1]
 	half2 := cert2.NotBefore.Add(cert2.NotAfter.Sub(cert2.NotBefore) / 2)
 	due := half2
